@@ -65,14 +65,16 @@ def reader_table(p: Program):
     except AnalysisError:
         shape = {}
     ret = next((r for r in walk_local(fi.node) if isinstance(r, ast.Return) and isinstance(r.value, ast.Name)), None)
-    if ret is None:
+    built = [r for r in walk_local(fi.node) if isinstance(r, ast.Return) and isinstance(r.value, ast.Call) and r.value.keywords]
+    if ret is None and not built:
         return fi, sp, shape
+    mv_name = ret.value.id if ret is not None else "<result>"
     out: dict[str, list] = {}
     vel = ast.Attribute(value=ast.Name(id=sp, ctx=ast.Load()), attr="velocity", ctx=ast.Load())
     for mtype in ("note_on", "note_off", "time_signature", "key_signature", "control_change", "program_change"):
         cases = {}
         for vc in ("pos", "zero"):
-            ev = _ParseEval(sp, ret.value.id, mtype, vc, True)
+            ev = _ParseEval(sp, mv_name, mtype, vc, True)
             ev.run(fi.node.body)
             if ev.unknown:
                 cases = None
@@ -237,6 +239,11 @@ class _ParseEval:
                 elif s.targets[0].id != self.mv:
                     self.env[s.targets[0].id] = self.ev(s.value)
             elif isinstance(s, ast.Return):
+                if isinstance(s.value, ast.Call) and s.value.keywords and not (isinstance(s.value.func, ast.Attribute) and isinstance(s.value.func.value, ast.Name)
+                                                                               and s.value.func.value.id == self.mv):
+                    for k in s.value.keywords:             # the result built by the return itself: `return MidiMessage(message_type=.., time=..)`
+                        if k.arg is not None:
+                            self.stores[k.arg] = self.ev(k.value)
                 self.done = True
                 return
 
@@ -264,10 +271,11 @@ def parse_rule(ctx, rule: str = "PARSE") -> int:
     q = fi.qualname
     sp = fi.params[0]
     ret = next((r for r in walk_local(fi.node) if isinstance(r, ast.Return) and isinstance(r.value, ast.Name)), None)
-    if ret is None:
+    built = [r for r in walk_local(fi.node) if isinstance(r, ast.Return) and isinstance(r.value, ast.Call) and r.value.keywords]
+    if ret is None and not built:
         ctx.undetermined(rule, f"{q}: reader dispatch", "does not return a local message object: not judged")
         return 0
-    mv = ret.value.id
+    mv = ret.value.id if ret is not None else "<result>"
     n = 0
     for (mtype, vel), (T, fields) in PARSE_EXPECT.items():
         for has_ch in (True, False):
